@@ -104,6 +104,8 @@ func configs() []*cfg {
 			Down: append(append([]rule{}, down...), rule{Kind: "set", Name: "X-DSet", Value: "second"}, rule{Kind: "set", Name: "Cache-Control", Value: "no-store"}, rule{Kind: "set", Name: "Cache-Control", Value: "private"})},
 		// `timeout` bounds connecting to the upstream, not how long a response may stream
 		{Name: "short-connect-timeout", From: "/", Extra: "timeout 400ms"},
+		// kept-alive upstream connections that the backend closes under a request
+		{Name: "stale-keepalive", From: "/", Base: "/base", Retry: "multi-ok", Up: retryUp[:1], Stale: true},
 	}
 	for i, c := range cs {
 		c.ID = i
@@ -498,9 +500,25 @@ func genCase(r *lib.Rng, n int, cfgs []*cfg, workers, port int) *kase {
 	case "GET", "DELETE", "OPTIONS":
 		withBody = r.Chance(1, 7)
 	}
+	if c.Stale {
+		// what a client library may send again on its own: an idempotent
+		// method, or any method with an idempotency key; mostly with a
+		// chunked body
+		rq.Method = []string{"GET", "OPTIONS", "PUT", "POST", "DELETE"}[r.Intn(5)]
+		if (rq.Method == "PUT" || rq.Method == "POST") && r.Bool() {
+			rq.Hdr = append(rq.Hdr, hdr{[]string{"Idempotency-Key", "X-Idempotency-Key"}[r.Intn(2)], fmt.Sprintf("k-%d", n)})
+		}
+		withBody = r.Chance(5, 6)
+	}
 	if withBody {
 		rq.BodyLen = pickSize(r)
 		rq.Chunked = r.Bool()
+		if c.Stale {
+			rq.Chunked = r.Chance(3, 4)
+			if rq.BodyLen == 0 {
+				rq.BodyLen = 1 + r.Intn(3000)
+			}
+		}
 		rq.BodyTag = r.U64()
 		if rq.Chunked {
 			rq.Chunks = splits(r, rq.BodyLen, 20000)
@@ -509,7 +527,7 @@ func genCase(r *lib.Rng, n int, cfgs []*cfg, workers, port int) *kase {
 	}
 
 	// reply
-	rp := &replySpec{}
+	rp := &replySpec{StaleFirst: c.Stale}
 	k.Reply = rp
 	rp.Status = []int{200, 200, 200, 200, 200, 201, 204, 304, 404, 500, 301, 418}[r.Intn(12)]
 	var rh []hdr
@@ -845,11 +863,14 @@ func run(c *lib.Ctx) {
 		}(w)
 	}
 	wg.Wait()
-	var bc int64
+	var bc, sd int64
 	for _, st := range sts {
 		bc += atomic.LoadInt64(&st.be.conns)
+		sd += atomic.LoadInt64(&st.be.staleDrops)
 	}
 	c.Count("backend_connections", bc)
+	c.Count("first_attempts_dropped_on_a_reused_connection", sd)
+	c.Floor("first_attempts_dropped_on_a_reused_connection", int64(total/200))
 
 	c.Floor("cases_compared_both_directions", int64(total*95/100))
 	c.Floor("retried_cases_observed", int64(total/40))
